@@ -5,12 +5,14 @@ U = us.U
 
 RES = '__CPROVER_return_value'
 # ghost: vx_buf[0..vx_n) is the input; first == vx_buf + vx_off; last == vx_buf + vx_n
-AV = '(vx_n - vx_off)'
-b = lambda i: 'vx_at(vx_off + %d)' % i
+# ghost: vx_buf[0..vx_n) is the input; first points into it at offset OFF; last == vx_buf + vx_n
+OFF = '__CPROVER_POINTER_OFFSET(first)'
+AV = '(vx_n - %s)' % OFF
+b = lambda i: 'vx_at(%s + %d)' % (OFF, i)
 L = 'spec_utf8_len(%s)' % b(0)
 WF = '(%s >= 1 && %s >= (size_t)%s && spec_wf_utf8(%s, %s, %s, %s, %s))' % (L, AV, L, b(0), b(1), b(2), b(3), L)
 TOCP_CONTRACT = [
-    ('requires', 'vx_off <= vx_n && vx_n <= VX_BUF_CAP && first == (const char*)vx_buf + vx_off && last == (const char*)vx_buf + vx_n && (flags == strict_flag_strict || flags == strict_flag_lenient)'),
+    ('requires', 'vx_n <= VX_BUF_CAP && __CPROVER_same_object(first, vx_buf) && %s <= vx_n && last == (const char*)vx_buf + vx_n && (flags == strict_flag_strict || flags == strict_flag_lenient)' % OFF),
     ('requires', '__CPROVER_w_ok(ch_p, sizeof(*ch_p))'),
     ('assigns', '*ch_p'),
     ('ensures', '[C01][C08] a well-formed sequence at first decodes to its scalar value and the pointer advances by its length',
